@@ -70,6 +70,25 @@ def anchor_files(pid: str) -> list:
     return [f for f in files if f.endswith(".py")]
 
 
+def whole_tree_hash() -> str:
+    """hash of every .py file under src/arim (same definition as common.src_hash)"""
+    import hashlib
+    h = hashlib.sha256()
+    src = REPO / "src"
+    for p in sorted((src / "arim").rglob("*.py")):
+        h.update(str(p.relative_to(src)).encode())
+        h.update(p.read_bytes())
+    return h.hexdigest()[:16]
+
+
+def tree_is_baseline() -> bool:
+    """is the whole source tree byte-identical to the one the checks were last validated against (the baseline)?"""
+    try:
+        return json.loads(BASE.read_text()).get("src_hash") == whole_tree_hash()
+    except (OSError, ValueError):
+        return False
+
+
 def changed(pid: str) -> list:
     """names of the anchored functions that differ from the baseline ('file::qualname'), [] if none"""
     try:
@@ -96,7 +115,8 @@ if __name__ == "__main__":
         dirty = subprocess.run(["git", "-C", str(REPO), "status", "--porcelain", "--", "src"], capture_output=True, text=True).stdout.strip()
         if dirty:
             sys.exit("refusing to record a baseline from a modified working tree:\n" + dirty)
-        BASE.write_text(json.dumps({"repo_head": head, "python": list(sys.version_info[:2]), "files": {f: file_prints(REPO / f) for f in files}}, indent=1, sort_keys=True))
+        BASE.write_text(json.dumps({"repo_head": head, "python": list(sys.version_info[:2]), "src_hash": whole_tree_hash(),
+                                    "files": {f: file_prints(REPO / f) for f in files}}, indent=1, sort_keys=True))
         print("baseline written for", len(files), "files at", head)
     else:
         for i in range(1, 21):
